@@ -292,12 +292,17 @@ def tlc_ok(r, what):
 # findings, verdict, evidence
 # ----------------------------------------------------------------------------
 def load_known():
-    p = os.path.join(VERIF, "known_findings.json")
-    if not os.path.exists(p):
-        return []
-    with open(p) as f:
-        d = json.load(f)
-    return [x for x in d.get("findings", [])]
+    out = []
+    paths = [os.path.join(VERIF, "known_findings.json")]
+    # development aid: extra (not yet merged) finding lists, colon separated
+    paths += [x for x in os.environ.get("VERIF_KNOWN_EXTRA", "").split(":") if x]
+    for p in paths:
+        if not os.path.exists(p):
+            continue
+        with open(p) as f:
+            d = json.load(f)
+        out += [x for x in d.get("findings", [])]
+    return out
 
 
 class Verdict:
